@@ -1240,8 +1240,24 @@ fn apply_subs(text: &str, subs: &[(String, String, String)]) -> Result<String, S
                     body_owned = body.lines().filter(|l| l.trim() != first.trim()).collect::<Vec<_>>().join("\n");
                 }
             }
+            // `@pre <ghost statement>` lines are emitted just before the loop header (annotation only)
+            let mut pre_lines: Vec<String> = vec![];
+            {
+                let mut kept: Vec<String> = vec![];
+                for l in body_owned.lines() {
+                    if let Some(p) = l.trim().strip_prefix("@pre ") {
+                        pre_lines.push(p.to_string());
+                    } else {
+                        kept.push(l.to_string());
+                    }
+                }
+                body_owned = kept.join("\n");
+            }
             let body = &body_owned;
             let mut repl: Vec<String> = vec![];
+            for p in &pre_lines {
+                repl.push(format!("{}{}", hind, p));
+            }
             if !head.trim().is_empty() {
                 repl.push(head);
             }
